@@ -982,6 +982,8 @@ class Shared:
         self.calls = []        # (name, [positional values], {keyword: value}, node) of calls that stayed opaque or were hooked
         self.cells = []        # (object value, index, stored value, node) of stores into opaque objects
         self.assumed = []      # (value of the test, decision) of every test that was answered by the regime split, not by its value
+        self.discarded = []    # values computed for np.where and not selected (under a condition that is not a constant)
+        self.tests = []        # (node, outcome) of every test in the order it was made, constant ones included (for reports only)
         self.counter = 0
         self.generic_loops = 0
 
@@ -1205,6 +1207,7 @@ class Interp:
             return r
         r = G.truth_of(v, atom)
         if r is not None:
+            self.sh.tests.append((node, r))
             return r
         if not split or self.decisions is None:
             return None
@@ -2244,9 +2247,21 @@ PURE_NAMES = PY_BUILTINS | {"warnings.warn"}
 HANDLED_KW = {"axis", "shape", "newshape", "axes", "start", "step", "repeats", "fill_value", "reverse", "refpoint", "grids"}
 
 
+# keywords understood by one model only: (a) implemented by it, or (b) documented not to change the mathematical result (LAPACK driver, finite
+# checks, overwrite permissions, the rank cut-off of a least-squares solve of a matrix that is square and regular or exactly zero)
+NAME_KW = {
+    "np.allclose": {"rtol", "atol"}, "np.isclose": {"rtol", "atol"}, "math.isclose": {"rel_tol", "abs_tol"},
+    "linalg.lstsq": {"cond", "rcond", "overwrite_a", "overwrite_b", "check_finite", "lapack_driver"}, "np.linalg.lstsq": {"rcond"},
+    "linalg.solve": {"overwrite_a", "overwrite_b", "check_finite", "lower"}, "linalg.inv": {"overwrite_a", "check_finite"},
+    "linalg.pinv": {"check_finite", "atol", "rtol", "rcond", "cond"}, "np.linalg.pinv": {"rcond", "rtol"},
+    "linalg.det": {"overwrite_a", "check_finite"},
+}
+
+
 def _kwargs_understood(name, kwargs):
+    own = NAME_KW.get(name, ())
     for k, v in kwargs.items():
-        if k in HANDLED_KW:
+        if k in HANDLED_KW or k in own:
             continue
         if k == "dtype" and (isinstance(v, Builtin) and v.name in ("float", "np.float64", "np.float32", "np.double") or (is_rat(v) and G.same(v, NONE))):
             continue
@@ -2608,9 +2623,16 @@ def L_where(ip, args, kwargs, node):
     c, x, y = args[:3]
 
     def pick(cv, xv, yv):
-        r = G.fold_bool(cv)
+        r = G.fold_bool(cv) if is_rat(cv) else None
         if r is None:
-            raise Unsupported("np.where on an undecided condition")
+            # an element whose condition is not a constant: the regime is named by the rule (truth) or split, as for an `if`; numpy has
+            # computed both candidates - what is thrown away is remembered, because a rule must not read it as a value that was used
+            if not is_rat(cv):
+                raise Unsupported("np.where on a condition that is not understood")
+            r = ip.decide(cv, node)
+            if r is None:
+                raise Unsupported("np.where on an undecided condition")
+            ip.sh.discarded.append(yv if r else xv)
         return xv if r else yv
     ca = as_arr(c)
     shp = bshape(bshape(ca.shape, as_arr(x).shape), as_arr(y).shape)
@@ -3168,6 +3190,206 @@ def _binary(f):
     return g
 
 
+def _tol(v, default):
+    if v is None:
+        return F.const(Fraction(default))
+    if isinstance(v, Arr) and v.size == 1:
+        v = v.flat()[0]
+    if not is_rat(v) or _objectlike(v):
+        raise Unsupported("tolerance that is not a number")
+    return v
+
+
+def _isclose(ip, args, kwargs):
+    """numpy's closeness test, element by element, as the comparison it is: |a - b| <= atol + rtol * |b| (so a test with a tolerance has a
+    truth value at every exact point, and is a formula elsewhere)"""
+    rtol = _tol(_arg(args, kwargs, 2, "rtol"), "1e-5")
+    atol = _tol(_arg(args, kwargs, 3, "atol"), "1e-8")
+
+    def f(x, y):
+        return G.compare("LtE", s_abs(x - y), atol + rtol * s_abs(y))
+    return lift2(f, args[0], args[1])
+
+
+def L_isclose(ip, args, kwargs, node):
+    if len(args) < 2 or not all(_arrayish(a) or (is_rat(a) and not _objectlike(a)) for a in args[:2]):
+        return NotImplemented
+    return _isclose(ip, args, kwargs)
+
+
+def L_allclose(ip, args, kwargs, node):
+    r = L_isclose(ip, args, kwargs, node)
+    if r is NotImplemented:
+        return r
+    return v_all(as_arr(r).flat())
+
+
+def L_math_isclose(ip, args, kwargs, node):
+    if len(args) != 2 or not all(is_rat(a) and not _objectlike(a) for a in args):
+        return NotImplemented
+    rel, ab = _tol(kwargs.get("rel_tol"), "1e-9"), _tol(kwargs.get("abs_tol"), "0")
+    x, y = args
+    big = v_extreme("max")([rel * v_extreme("max")([s_abs(x), s_abs(y)]), ab])
+    return G.compare("LtE", s_abs(x - y), big)
+
+
+def _finite_pred(answer):
+    """isnan / isinf / isfinite: the analysis runs on finite real inputs and refuses to divide by zero, so every number it holds is finite"""
+    def g(ip, args, kwargs, node):
+        if len(args) != 1 or kwargs:
+            return NotImplemented
+        v = args[0]
+        if _arrayish(v):
+            a = as_arr(v)
+            if any(not is_rat(x) or _objectlike(x) for x in a.flat()):
+                return NotImplemented
+            return unbox(Arr.new([answer] * a.size, a.shape))
+        if is_rat(v) and not _objectlike(v) and not G.same(v, NONE):
+            return answer
+        return NotImplemented
+    return g
+
+
+def L_finfo(ip, args, kwargs, node):
+    """np.finfo(float): the constants of IEEE double precision"""
+    t = args[0] if args else kwargs.get("dtype")
+    ok = t is None or (isinstance(t, Builtin) and t.name in ("float", "np.float64", "np.double", "np.float_")) or \
+        (is_rat(t) and (isinstance(t, FRat) or str_of(t) in ("float", "float64", "d")))
+    if not ok or (kwargs and set(kwargs) != {"dtype"}):
+        return NotImplemented
+    ns = NSVal()
+    ns.attrs.update({"eps": as_float(F.const(Fraction(1, 2 ** 52))), "epsneg": as_float(F.const(Fraction(1, 2 ** 53))),
+                     "tiny": as_float(F.const(Fraction(1, 2 ** 1022))), "smallest_normal": as_float(F.const(Fraction(1, 2 ** 1022))),
+                     "max": as_float(F.const((2 - Fraction(1, 2 ** 52)) * 2 ** 1023)), "min": as_float(F.const(-(2 - Fraction(1, 2 ** 52)) * 2 ** 1023)),
+                     "resolution": as_float(F.const(Fraction(1, 10 ** 15))), "precision": F.const(15), "bits": F.const(64)})
+    return ns
+
+
+# ---- small dense linear algebra on formulas (exact; cofactor expansion, so entries may be symbolic)
+def _minor(M, i, j):
+    return [[M[r][c] for c in range(len(M)) if c != j] for r in range(len(M)) if r != i]
+
+
+def _det(M):
+    n = len(M)
+    if n == 0:
+        return F.const(1)
+    if n == 1:
+        return M[0][0]
+    if n == 2:
+        return M[0][0] * M[1][1] - M[0][1] * M[1][0]
+    tot = F.const(0)
+    for j in range(n):
+        if M[0][j].is_zero():
+            continue
+        term = M[0][j] * _det(_minor(M, 0, j))
+        tot = tot + term if j % 2 == 0 else tot - term
+    return tot
+
+
+def _square(v, what, limit=4):
+    """nested list of the entries of a square matrix that the evaluation knows completely, else None"""
+    if not _arrayish(v):
+        return None
+    a = as_arr(v)
+    if a.ndim != 2 or a.shape[0] != a.shape[1]:
+        return None
+    if a.shape[0] > limit:
+        return None
+    M = [list(r) for r in a.nested()]
+    if any(not is_rat(x) or _objectlike(x) for r in M for x in r):
+        return None
+    return M
+
+
+def _inverse(M):
+    """inverse by the adjugate; None when the determinant vanishes identically"""
+    n = len(M)
+    d = _det(M)
+    if d.is_zero():
+        return None
+    if n == 1:
+        return [[F.const(1) / d]]
+    inv = [[None] * n for _ in range(n)]
+    for i in range(n):
+        for j in range(n):
+            c = _det(_minor(M, i, j))
+            inv[j][i] = (c if (i + j) % 2 == 0 else -c) / d
+    return inv
+
+
+def _solve_exact(A, rhs, allow_zero):
+    """X with A X = rhs for a square A whose determinant does not vanish identically (the least-squares / minimum-norm solution is then the
+    solution; at a point where the determinant happens to vanish the formula divides by zero and says so); for the zero matrix the
+    minimum-norm least-squares solution is zero (`allow_zero`: lstsq / pinv only).  None when neither applies."""
+    M = _square(A, "matrix")
+    if M is None or not _arrayish(rhs):
+        return None
+    b = as_arr(rhs)
+    if b.ndim not in (1, 2) or b.shape[0] != len(M):
+        return None
+    if any(not is_rat(x) for x in b.flat()):
+        return None
+    if all(x.is_zero() for r in M for x in r):
+        return Arr.new([F.const(0)] * b.size, b.shape) if allow_zero else None
+    inv = _inverse(M)
+    if inv is None:
+        return None
+    return matmul(as_arr(tuple(tuple(r) for r in inv)), b)
+
+
+def L_lstsq(ip, args, kwargs, node):
+    if len(args) != 2:
+        return NotImplemented
+    x = _solve_exact(args[0], args[1], True)
+    if x is None:
+        return NotImplemented
+    n = as_arr(args[0]).shape[0]
+    tag = f"#{ip.sh.fresh()}"
+    return (x, F.fn("opaque", "lstsq-residues" + tag), F.fn("opaque", "lstsq-rank" + tag), F.fn("opaque", "lstsq-singular-values" + tag))
+
+
+def L_solve(ip, args, kwargs, node):
+    if len(args) != 2:
+        return NotImplemented
+    M = _square(args[0], "matrix")
+    if M is not None and all(x.is_zero() for r in M for x in r):
+        raise PyError("LinAlgError", "singular matrix")
+    x = _solve_exact(args[0], args[1], False)
+    return NotImplemented if x is None else x
+
+
+def L_inv(ip, args, kwargs, node):
+    if len(args) != 1:
+        return NotImplemented
+    M = _square(args[0], "matrix")
+    if M is None:
+        return NotImplemented
+    if all(x.is_zero() for r in M for x in r):
+        raise PyError("LinAlgError", "singular matrix")
+    inv = _inverse(M)
+    return NotImplemented if inv is None else as_arr(tuple(tuple(r) for r in inv))
+
+
+def L_pinv(ip, args, kwargs, node):
+    if len(args) != 1:
+        return NotImplemented
+    M = _square(args[0], "matrix")
+    if M is None:
+        return NotImplemented
+    if all(x.is_zero() for r in M for x in r):
+        return Arr.new([F.const(0)] * (len(M) ** 2), (len(M), len(M)))
+    inv = _inverse(M)
+    return NotImplemented if inv is None else as_arr(tuple(tuple(r) for r in inv))
+
+
+def L_det(ip, args, kwargs, node):
+    if len(args) != 1:
+        return NotImplemented
+    M = _square(args[0], "matrix")
+    return NotImplemented if M is None else _det(M)
+
+
 LIB = {
     "np.array": L_array, "np.asarray": L_asarray, "np.asanyarray": L_asarray, "np.ascontiguousarray": L_asarray, "np.copy": L_array,
     "np.atleast_1d": L_atleast_1d, "np.atleast_2d": L_atleast_2d,
@@ -3208,7 +3430,54 @@ LIB = {
     "functools.partial": L_partial, "functools.reduce": L_reduce, "types.SimpleNamespace": L_namespace, "SimpleNamespace": L_namespace,
     "divmod": L_divmod, "operator.matmul": L_dot, "operator.add": _binary(s_add), "operator.sub": _binary(s_sub), "operator.mul": _binary(s_mul),
     "operator.neg": _unary(lambda x: -x), "np.ravel": lambda ip, a, k, n: M_ravel(ip, as_arr(a[0]), [], {}, n),
+    "np.allclose": L_allclose, "np.isclose": L_isclose, "math.isclose": L_math_isclose, "np.finfo": L_finfo,
+    "math.isnan": _finite_pred(FALSE), "np.isnan": _finite_pred(FALSE), "math.isinf": _finite_pred(FALSE), "np.isinf": _finite_pred(FALSE),
+    "math.isfinite": _finite_pred(TRUE), "np.isfinite": _finite_pred(TRUE),
+    "linalg.lstsq": L_lstsq, "np.linalg.lstsq": L_lstsq, "linalg.solve": L_solve, "np.linalg.solve": L_solve, "linalg.inv": L_inv,
+    "np.linalg.inv": L_inv, "linalg.pinv": L_pinv, "np.linalg.pinv": L_pinv, "linalg.det": L_det, "np.linalg.det": L_det,
+    "np.diagonal": L_diag,
 }
+
+
+def _over_stack(f2d, nmat):
+    """numpy's linear-algebra functions act on the last two axes of a stack of matrices: apply the 2-d model to every matrix of the stack
+    (`nmat`: how many leading arguments are matrices)"""
+    def g(ip, args, kwargs, node):
+        if len(args) < nmat or not all(_arrayish(a) for a in args[:nmat]):
+            return f2d(ip, args, kwargs, node)
+        arrs = [as_arr(a) for a in args[:nmat]]
+        if all(a.ndim <= 2 for a in arrs):
+            return f2d(ip, args, kwargs, node)
+        if any(a.ndim < 2 for a in arrs):
+            return NotImplemented
+        lead = ()
+        for a in arrs:
+            lead = bshape(lead, a.shape[:-2])
+        flats = [bflat(a, lead + a.shape[-2:]) for a in arrs]
+        outs = []
+        for k in range(_prod(lead)):
+            mats = []
+            for a, fl in zip(arrs, flats):
+                n = a.shape[-2] * a.shape[-1]
+                mats.append(Arr.new(fl[k * n:(k + 1) * n], a.shape[-2:]))
+            r = f2d(ip, mats + list(args[nmat:]), kwargs, node)
+            if r is NotImplemented or isinstance(r, tuple):
+                return NotImplemented
+            outs.append(as_arr(r))
+        if not outs:
+            return NotImplemented
+        shp = outs[0].shape
+        if any(o.shape != shp for o in outs):
+            return NotImplemented
+        vals = []
+        for o in outs:
+            vals.extend(o.flat())
+        return Arr.new(vals, lead + shp)
+    return g
+
+
+for _nm, _k in (("np.linalg.solve", 2), ("np.linalg.inv", 1), ("np.linalg.pinv", 1), ("np.linalg.det", 1)):
+    LIB[_nm] = _over_stack(LIB[_nm], _k)
 
 
 # ----------------------------------------------------------------------------------------------------------------- methods
@@ -3274,6 +3543,14 @@ def M_item(ip, obj, args, kwargs, node):
 
 def M_nonzero(ip, obj, args, kwargs, node):
     return L_nonzero(ip, [obj], {}, node)
+
+
+def M_trace(ip, obj, args, kwargs, node):
+    return NotImplemented if args or kwargs else L_trace(ip, [obj], {}, node)
+
+
+def M_diagonal(ip, obj, args, kwargs, node):
+    return NotImplemented if args or kwargs or obj.ndim != 2 else L_diag(ip, [obj], {}, node)
 
 
 def M_max(ip, obj, args, kwargs, node):
@@ -3412,7 +3689,7 @@ def M_startswith(ip, obj, args, kwargs, node):
 METHODS = {
     Arr: {"any": M_any, "all": M_all, "sum": M_sum, "reshape": M_reshape, "transpose": M_transpose, "copy": M_copyarr, "astype": M_copyarr,
           "to_numpy": M_self, "squeeze": M_self, "view": M_self, "__array__": M_self, "ravel": M_ravel, "flatten": M_flatten,
-          "tolist": M_tolist, "fill": M_fill, "dot": M_dot, "item": M_item, "nonzero": M_nonzero, "max": M_max, "min": M_min},
+          "tolist": M_tolist, "fill": M_fill, "dot": M_dot, "item": M_item, "nonzero": M_nonzero, "max": M_max, "min": M_min, "trace": M_trace, "diagonal": M_diagonal},
     LVal: {"append": M_append, "extend": M_extend, "insert": M_insert, "pop": M_pop, "copy": M_lcopy, "reverse": M_reverse, "index": M_index, "sort": M_sort},
     tuple: {"index": M_index},
     DVal: {"get": M_dget, "items": M_ditems, "keys": M_dkeys, "values": M_dvalues, "setdefault": M_dsetdefault, "update": M_dupdate},
